@@ -11,6 +11,6 @@ if [ ! -x "$V/bin/instr" ] || [ "$V/tools/instr/main.go" -nt "$V/bin/instr" ]; t
 fi
 $V/bin/instr -repo "$REPO" -out "$S/instr" -rt $V/rt \
   -pkg workflow -pkg internal/step/plugin -pkg internal/step/foreach -pkg internal/infer -pkg . -pkg loadfile -pkg internal/yaml -pkg internal/step \
-  -swap go.flow.arcalot.io/pluginsdk/atp=go.flow.arcalot.io/engine/internal/verif/fakeatp "$@"
+  -swap go.flow.arcalot.io/pluginsdk/atp=go.flow.arcalot.io/engine/internal/verif/fakeatp ${VERIF_PROBES:+-probes} "$@"
 cp "$REPO/go.mod" "$S/go.mod"; cp "$REPO/go.sum" "$S/go.sum"
 (cd "$REPO" && go build -modfile="$S/go.mod" -overlay "$S/instr/overlay.json" -o "$S/verifh" ./cmd/verifh)
